@@ -100,4 +100,24 @@ def build(ctx):
                                     cap=ctx.q(150, 900), backends=["minisat", "kissat"], meta={"big_loops": ["ref_walk_%s.%d" % (mname, x) for x in range(16)]},
                                     desc="%s.%s: %s on a view bound to malloc(n), every n in 0..%d: handler invoked or no out-of-bounds access; no spurious handler when the image fits" % (sch.ns, mname, a[0], nmax),
                                     bounds={"NMAX": nmax, "G": G, "D": D, "E": E, "std": "c++" + std}))
+    # hostile / extreme <data> length: a length prefix at the top of its (uint8) type with a view shorter than the message
+    msg = sch.message("odd")
+    g = msggen.MG(sch, msg, 1)
+    u = ctx.lower("c10_%s_%s" % (sch.ns, "odd"), g.cpp_prelude() + g.cpp_getset(True) + g.cpp_geom(True, True) + g.cpp_cursor() + cpp_extra(g) + c17.cpp(g) + c05.cpp_traits(g).split("\n")[-2] + "\n",
+                  std="17", mode="checked", incs=[inc])
+    for (label, call) in (("dinfo_da", "i64 o[4]; IN(u32, k); VASSUME(k < 256); CALL(dinfo_odd_da(buf, n, 0, 0, k, o));"),
+                          ("dset_da", "IN(u64, v); IN(u32, k); VASSUME(k < img[14]); CALL(dset_odd_da(buf, n, 0, 0, k, v));"),
+                          ("dresize_da", "IN(u64, v); VASSUME(v <= 255); CALL(dresize_odd_da(buf, n, 0, 0, v));")):
+        body = """  enum { NMAX = 24 };
+  IN_BYTES(img, NMAX); IN(u64, n); VASSUME(n <= NMAX);
+  /* odd: header(8) with blockLength 0, two empty groups (ge: 2-byte header, gc: 4-byte header) => <data> 'da' (uint8 length) at offset 14; its length byte is ANY value 0..255 */
+  img[%(obl)d] = 0; img[%(obl)d + 1] = 0; img[8] = 0; img[9] = 0; img[10] = 0; img[11] = 0; img[12] = 0; img[13] = 0;
+  unsigned char *buf = VMALLOC(n); for (unsigned i = 0; i < NMAX; i++) if (i < n) buf[i] = img[i];
+  %(call)s
+  VASSERT(verif_aborted || !verif_oob, "if the assertion handler is not invoked, no byte at or beyond p+n was accessed (length prefix at the top of its type included)");
+  if (n >= 15 + (u64)img[14] && %(nospur)s) VASSERT(!verif_aborted, "with the whole <data> inside the buffer the handler is never invoked");
+""" % {"obl": g.hdr["blockLength"][0], "call": call, "nospur": "0" if label == "dresize_da" else "1"}
+        hs.append(P.Harness("%s_odd_bigdata_%s_cxx17" % (sch.ns, label), hgen.harness([u], body), [u], unwind=4, track=True, cap=ctx.q(200, 900), backends=["minisat", "kissat"],
+                            desc="%s.odd: %s with the <data> length prefix anywhere in 0..255 (incl. the uint8 maximum) on a view bound to malloc(n), n in 0..24" % (sch.ns, label),
+                            bounds={"NMAX": 24, "length": "0..255", "std": "c++17"}))
     return hs
